@@ -63,7 +63,7 @@ Keys == {"lag", "method", "trim", "sliding", "maxn"}
 ValuesOf(k) == CASE k = "lag" -> 1..MaxLag [] k = "method" -> Methods [] k = "trim" -> BOOLEAN
                  [] k = "sliding" -> BOOLEAN [] k = "maxn" -> {0, S, S + 1}          \* maxn 0 = None
 With(c, k, v) == [kk \in DOMAIN c |-> IF kk = k THEN v ELSE c[kk]]
-ConfigKeys(c) == M!ConfigKeys(c)                  \* the four documented keys of the `config` property
+ConfigKeys(c) == M!ConfigKeys(c)                  \* the keys of the `config` property (max_n_states included since repair 30dd8d6)
 
 Unbound == [live |-> FALSE, given |-> <<>>, stored |-> <<>>, fit |-> <<>>, fitcfg |-> <<>>]
 Fresh(c) == [live |-> TRUE, given |-> c, stored |-> c, fit |-> <<>>, fitcfg |-> <<>>]
